@@ -852,7 +852,10 @@ class SessionManager:
         if height_changed:
             self._notified_reorg_count = self._reorg_count
             await self._refresh_hsub_results(height)
-            # Invalidate our history cache for touched hashXs
+        if touched:
+            # Invalidate our history cache for touched hashXs.  Not only on a height change:
+            # after a reorg that ends at the same height the block processor's touched set can
+            # arrive after a mempool notification has already consumed the change of tip.
             self._history_invalidations += 1
             cache = self._history_cache
             for hashX in set(cache).intersection(touched):
